@@ -22,7 +22,7 @@ for r in rows:
         "breaks": meta.get("clause_broken"),
         "needs_to_manifest": meta.get("what_it_needs_to_manifest"),
         "files_touched": meta.get("files_touched"),
-        "origin": "written by an independent sub-agent that saw only the property text and a scratch worktree" + (" (round 2, on top of the fix commits)" if suffix else " of the pinned commit") + ("; ported by hand onto the fix commits" if "ported" in r["patch"] else ""),
+        "origin": "written by an independent sub-agent that saw only the property text and a scratch worktree" + (" (round " + (suffix or "1") + ", on top of the fix commits of that time)" if suffix else " of the pinned commit") + ("; ported by hand onto the fix commits" if "ported" in r["patch"] else ""),
         "confirmed_by_me": {
             "repo_head": r["head"],
             "commands": ["git worktree add --detach <scratch> HEAD", "python demo.py  (clean tree)", "git apply patch.diff", "python demo.py  (patched tree)", "python -m pytest -q -p no:cacheprovider -n 5 --deselect tests/mc/test_isotension.py::test_isotension_simulation_with_mask"],
